@@ -132,8 +132,39 @@ impl<'a> Gen<'a> {
         a
     }
 
+    /// Targeted scenario: bring the live segment to within a few bytes of the size estimate of the next
+    /// (incompressible) append, so that estimate <= free < stored size or free is just below/above the estimate,
+    /// then read everything back (directly, and after a reopen or crash).
+    fn scenario_fill_window(&mut self, thorough: bool) -> Hist {
+        let buckets = *self.rng.pick(&[1u16, 2]);
+        let base = self.rng.below(50) as u16;
+        let keys = vec![base, base, base + 2];
+        let mut h = Hist { buckets, seg: 131072, comp: self.rng.chance(4, 5), keys, ops: vec![] };
+        let mut ops = Vec::new();
+        let k = self.rng.below(2) as usize;
+        let pid = h.keys[k];
+        let nsmall = self.rng.below(3);
+        for _ in 0..nsmall { let big = self.rng.chance(1, 3); let a = self.append_on(&h, k, big, false); ops.push(a); }
+        let rounds = if thorough { 2 } else { 1 };
+        for _ in 0..rounds {
+            let delta = self.rng.range(0, 22) as i64 - 4;
+            let len = *self.rng.pick(&[150usize, 200, 1000, 5000, 30000]);
+            ops.push(Op::FillWindow { k, delta, len });
+            ops.push(Op::ScanP { pid, from: 0, rev: false, batch: 50 });
+            ops.push(Op::PSeq { pid });
+            let a = self.append_on(&h, k, false, false); ops.push(a);
+        }
+        match self.rng.below(3) { 0 => ops.push(Op::Reopen), 1 => ops.push(Op::Crash { keep: self.rng.below(3) as usize, extra: *self.rng.pick(&[0usize, 5, 60]) }), _ => {} }
+        ops.push(Op::ScanP { pid, from: 0, rev: false, batch: 3 });
+        ops.push(Op::ScanS { sid: k as u64, pid, from: 0, rev: self.rng.chance(1, 2), batch: 50 });
+        ops.push(Op::SVer { sid: k as u64, pid });
+        h.ops = ops;
+        h
+    }
+
     pub fn history(&mut self, thorough: bool) -> Hist {
         if matches!(self.prop, "C01" | "C03" | "C04" | "C05") && self.rng.chance(1, 5) { return self.scenario_rollover_fail(thorough); }
+        if matches!(self.prop, "C01" | "C02" | "C05") && self.rng.chance(1, 8) { return self.scenario_fill_window(thorough); }
         let buckets = *self.rng.pick(&[1u16, 2, 2]);
         let nk = self.rng.range(2, 4) as usize;
         // partition ids: first two keys share a partition, others differ (and may share the bucket)
